@@ -9,18 +9,22 @@
    (no recursion, no fuel, every shared node has one entry).
    The wiring is modelled over an ABSTRACT expression evaluator [eval] (Section variable; the only thing assumed of it
    in the proofs is that it uses its service call-back extensionally).  [teval] is a tiny concrete evaluator
-   (numbers, + *, names, f(a,b), boxed invocation, boxed context, relation) used by the correspondence check, with
-   the dynamic scoping of function bodies that the FEEL evaluator has; [teval_orig] keeps the entry leak of boxed
+   (numbers, strings, + *, names, f(a,b), boxed invocation, boxed context, relation) used by the correspondence check,
+   with the dynamic scoping of function bodies that the FEEL evaluator has; [teval_orig] keeps the entry leak of boxed
    contexts at the pinned commit.
+   Numbers are decimal128 data (coq/Base/Dec.v) and + * are the correctly rounded operations of coq/Base/DecRound.v
+   (the subject of C02; imported, not copied), as in coq/C01/Syntax.v; an overflow is null.  A string is its list of
+   code points; + concatenates two strings; any other mix of operand kinds is null.
    Conventions: names and ids are numbers; a context is an association list with set = replace-or-append
    (only look-ups and the entry set are observed; the check compares contexts as sorted maps); input data are
    taken from the input context by name and number-typed (input_value; typing in general is C11's subject); output variables are untyped (coercion is C11/C16).
    No proofs in this file. *)
 From Coq Require Import List NArith ZArith Bool Arith.
+From DV Require Base.Dec Base.DecRound.
 Import ListNotations.
 
 Inductive expr :=
-| ENull | ENum (z : Z) | EStr (s : N) | EVar (n : N)
+| ENull | ENum (d : Dec.dec) | EStr (s : list N) | EVar (n : N)
 | EAdd (a b : expr) | EMul (a b : expr)
 | ECall (f : N) (args : list expr)                      (* literal invocation  f(a, b) *)
 | EInvoke (f : N) (binds : list (N * expr))             (* boxed invocation of the function named f, bindings by name *)
@@ -28,13 +32,21 @@ Inductive expr :=
 | ERel (cols : list N) (rows : list (list expr)).       (* boxed relation *)
 
 Inductive value :=
-| VNull | VNum (z : Z) | VStr (s : N)
+| VNull | VNum (d : Dec.dec) | VStr (s : list N)
 | VList (vs : list value)
 | VCtx (es : list (N * value))
 | VBkm (params : list N) (body : expr)                  (* Value::FunctionDefinition built from a knowledge model *)
 | VSvc (id : N) (params : list N).                      (* Value::FunctionDefinition whose body is a decision service *)
 
 Definition env := list (N * value).                     (* FeelContext *)
+
+(* a number literal: the decimal128 nearest to the integer written (exact up to 34 digits, then rounded half-even
+   as the literal parser of the code does: 99999999999999999999999999999999995 is 1E+35) *)
+Definition num_lit (z : Z) : Dec.dec :=
+  match DecRound.round_Z z 0 false with Some d => d | None => Dec.dzero end.
+Definition enum (z : Z) : expr := ENum (num_lit z).
+Definition vnum (z : Z) : value := VNum (num_lit z).
+Definition of_num (o : option Dec.dec) : value := match o with Some d => VNum d | None => VNull end.
 
 Fixpoint lookup (n : N) (e : env) : option value :=
   match e with [] => None | (k, v) :: r => if N.eqb n k then Some v else lookup n r end.
@@ -83,7 +95,7 @@ Definition svc_fn (G : graph) (s : N) (acc : env) : env :=
 
 (* the required inputs of a decision / a service, taken from the input context by the variable evaluator of the input data;
    input data are number-typed in this model (typeRef="number": anything but a number becomes null; typing in general is C11) *)
-Definition input_value (nm : N) (inp : env) : value := match getv nm inp with VNum z => VNum z | _ => VNull end.
+Definition input_value (nm : N) (inp : env) : value := match getv nm inp with VNum d => VNum d | _ => VNull end.
 Definition inputs_into (G : graph) (ids : list N) (inp : env) (acc : env) : env :=
   fold_left (fun a nm => set nm (input_value nm inp) a) (input_names G ids) acc.
 
@@ -216,16 +228,25 @@ Definition callable_ok (G : graph) : bool :=
                     | _ => true end) G.
 
 (* ---------------- a tiny concrete evaluator ---------------- *)
+(* build_add / build_mul of feel-evaluator/src/builders.rs on the value kinds of this model: two numbers (decimal128,
+   rounded once, null on overflow), two strings (+ only: concatenation), null for every other pair *)
 Definition vadd (a b : value) : value :=
-  match a, b with VNum x, VNum y => VNum (x + y) | _, _ => VNull end.
-Definition vmul (a b : value) : value :=
-  match a, b with VNum x, VNum y => VNum (x * y) | _, _ => VNull end.
-
-Fixpoint bind_pos (ps : list N) (args : list value) : option env :=
-  match ps with
-  | [] => Some []
-  | p :: pr => match args with a :: ar => option_map (fun e => set p a e) (bind_pos pr ar) | [] => None end
+  match a, b with
+  | VNum x, VNum y => of_num (DecRound.dadd x y)
+  | VStr x, VStr y => VStr (x ++ y)
+  | _, _ => VNull
   end.
+Definition vmul (a b : value) : value :=
+  match a, b with VNum x, VNum y => of_num (DecRound.dmul x y) | _, _ => VNull end.
+
+(* eval_function_positional: the formal parameters are set one after the other in a fresh context (a repeated name keeps
+   the LAST argument bound to it); fewer arguments than parameters: no call (null); surplus arguments are ignored *)
+Fixpoint bind_pos_go (ps : list N) (args : list value) (acc : env) : option env :=
+  match ps with
+  | [] => Some acc
+  | p :: pr => match args with a :: ar => bind_pos_go pr ar (set p a acc) | [] => None end
+  end.
+Definition bind_pos (ps : list N) (args : list value) : option env := bind_pos_go ps args [].
 
 (* A scope is a stack of contexts; look-up searches from the top.  The model keeps the stack flattened:
    pushing a context = zip of the scope with it.  leaky = the pinned commit: a boxed context writes its entries
@@ -269,7 +290,7 @@ Definition apply_fn (fv : value) (pc : option env) (sc : env) : value :=
 Definition tev_step (sc : env) (e : expr) : value * env :=
   match e with
   | ENull => (VNull, sc)
-  | ENum z => (VNum z, sc)
+  | ENum d => (VNum d, sc)
   | EStr s => (VStr s, sc)
   | EVar n => (getv n sc, sc)
   | EAdd a b => let (x, sc1) := ev sc a in let (y, sc2) := ev sc1 b in (vadd x y, sc2)
